@@ -530,6 +530,9 @@ YR_API int yr_scanner_scan_mem_blocks(
 
     yr_stopwatch_start(&scanner->stopwatch);
 
+    // The entry point found in a previous scan must not be used for this one.
+    scanner->entry_point = YR_UNDEFINED;
+
     block = iterator->first(iterator);
   }
 
